@@ -49,6 +49,7 @@ EXCLUDED = {
     "CForest": "multi-threaded by design; reads the wall clock",
     "AnytimePathShortening": "runs its sub-planners in threads",
 }
+MAX_PLANNER_REPORTS = 6      # replays written per run for diverging planners; further ones are only counted
 NOT_CONSTRUCTED = {
     "STRRTstar": "needs a SpaceTimeStateSpace problem", "TSRRT": "needs a task-space configuration",
     "VFRRT": "needs a vector field", "XXL": "needs a workspace decomposition",
@@ -245,6 +246,8 @@ def oracle_rng(lines, out, pairs=()):
         if t[0] == "getseed" and len(t) == 1 and last_set is not None and o != "first=%d" % last_set:
             return (i, "getSeed() reports %r after setSeed(%d)" % (o, last_set))
     for a, b in pairs:
+        if out[a] in ("no-such-rng", "bad-op") or out[b] in ("no-such-rng", "bad-op"):
+            continue        # (a shrunk script may have lost one of the two generators)
         if out[a] != out[b]:
             return (a, "after setLocalSeed the generator printed %s where a fresh RNG with that seed prints %s (%s)"
                     % (out[a][:40], out[b][:40], lines[a]))
@@ -253,14 +256,16 @@ def oracle_rng(lines, out, pairs=()):
 
 # ---------------------------------------------------------------------------------- planner runs
 def variant_env(v):
-    """process variants: different environment-block size (moves the stack and, with ASLR, everything else)
-    and a different fill byte for fresh/freed heap memory."""
+    """process variants: different environment-block size (moves the stack and, with ASLR, everything else),
+    a different fill byte for fresh/freed heap memory, and (variant 1, 2) a fragmented heap so that the *relative*
+    addresses of the planner's allocations differ too (ASLR alone shifts all pointers by one offset, which leaves
+    the iteration order of a pointer-keyed unordered container unchanged)."""
     if v == 0:
         return {"MALLOC_PERTURB_": "17", "C20_PAD": ""}
     if v == 1:
-        return {"MALLOC_PERTURB_": "165", "C20_PAD": "x" * 5333}
+        return {"MALLOC_PERTURB_": "165", "C20_PAD": "x" * 5333, "C20_HEAP_NOISE": "12345"}
     if v == 2:      # addresses as in variant 1, heap fill as in variant 0 (classifies a divergence)
-        return {"MALLOC_PERTURB_": "17", "C20_PAD": "x" * 5333}
+        return {"MALLOC_PERTURB_": "17", "C20_PAD": "x" * 5333, "C20_HEAP_NOISE": "12345"}
     # variant 3 is used with the ASan build (its own allocator; leak reports are not this check's business)
     return {"MALLOC_PERTURB_": "90", "C20_PAD": "y" * 911,
             "ASAN_OPTIONS": "detect_leaks=0:abort_on_error=0:exitcode=99"}
@@ -353,15 +358,24 @@ def judge_planner_pair(ck, plain, job, ra, rb, excluded=False):
     if excluded:
         ck.count("excluded-planner-diverged:" + pl)
         return True
-    # classify and find the first diverging query
+    record = {"engine": "rng", "kind": "planner-divergence", "planner": pl}
+    if ck.known_finding(record) is not None:
+        ck.report(record)          # prints KNOWN-FINDING once, counts the occurrence; no replay
+        return False
+    if len(ck.violations) >= MAX_PLANNER_REPORTS:
+        ck.count("planner-divergence-not-reported-separately(cap %d):%s" % (MAX_PLANNER_REPORTS, pl))
+        return False
+    # classify (information for the replay only) and find the first diverging query:
+    # run C = heap layout and addresses as B, heap fill byte as A
     rc_ = run_plan(ck, plain, job, 2)
-    trigger = "heap-garbage" if rc_["result"] == ra["result"] else "address-space"
+    trigger = ("heap-fill-byte (uninitialised or freed heap memory is read)" if rc_["result"] == ra["result"]
+               else "heap-layout, addresses or another hidden input")
     ta = run_plan(ck, plain, job, 0, trace=True)
     tb = run_plan(ck, plain, job, 1, trace=True)
     d = first_trace_diff(ta["trace"], tb["trace"])
     differing = [k for k in ("status", "approx", "evals", "polls", "qhash", "path", "pdata")
                  if field(ra["result"], k) != field(rb["result"], k)]
-    record = {"engine": "rng", "kind": "planner-divergence", "planner": pl, "trigger": trigger}
+    record["trigger"] = trigger
     ck.sample({"diverged": plan_line(job), "A": ra["result"], "B": rb["result"], "trigger": trigger}, limit=12)
     new = ck.report(record, script=["plan", plan_line(job)],
                     expected={"process": "A env=" + repr({k: (v if len(v) < 20 else "%d bytes" % len(v)) for k, v in variant_env(0).items()}),
@@ -443,14 +457,27 @@ def judge_rng(ck, hbin, body, seeds, tag, pairs=(), model=True, two_proc=False, 
             fail = (d2, "two processes with the same seed disagree: %r vs %r (%s)"
                     % (impl[d2] if d2 < len(impl) else None, impl2[d2] if d2 < len(impl2) else None, body[d2] if d2 < len(body) else ""))
     if fail is not None:
-        def still(ls):
+        # shrink in units that keep a (generator 0, generator 1) pair of lines together, otherwise the two
+        # generators get out of step and the shrunk script fails for the wrong reason
+        pa = dict(pairs)
+        groups, i = [], 0
+        while i < len(body):
+            if i in pa and pa[i] == i + 1:
+                groups.append(body[i:i + 2])
+                i += 2
+            else:
+                groups.append([body[i]])
+                i += 1
+
+        def still(gs):
+            ls = [l for g in gs for l in g]
             _s, o, rc_, _e, _m = run_rng(ck, hbin, ls, clock, 0, model=False)
             if two_proc:
                 _s2, o2, _r2, _e2, _m2 = run_rng(ck, hbin, ls, clock, 1, model=False)
                 if ck.first_diff(o, o2) is not None:
                     return True
             return oracle_rng(ls, o, parse_pairs(ls)) is not None or rc_ != 0
-        small = core.ddmin(body, still, max_tests=150) if len(body) <= 80 else body
+        small = [l for g in core.ddmin(groups, still, max_tests=150) for l in g] if len(body) <= 80 else body
         s2, o2, _rc, _e, m2 = run_rng(ck, hbin, small, clock, 0, model)
         f2 = oracle_rng(small, o2, parse_pairs(small))
         what = (f2 or fail)[1]
